@@ -1,9 +1,15 @@
 """C18 - template caching is transparent and behaves as a bounded LRU.
 
-Model: coq/LRU/Model.v   Theorems: coq/Props/C18.v
+Models: coq/LRU/Model.v (list level), coq/LRU/Heap.v (pointer level: heap of nodes, sentinels, dict)
+Theorems: coq/Props/C18.v (proofs in LRU/Proofs.v, LRU/HeapProofs.v - `lru_refines`)
 Correspondence: (1) LRUCache API on all op sequences up to a length bound x capacities, plus random long
-ones; (2) cached_template identity pattern over histories x cache sizes; (3) component renders over more
-inline templates than the cache holds (direct oracle: output == fresh compile).
+ones, against the list-level model; (1h) the FULL pointer structure of the real object (node order forwards and
+backwards, dict -> node, every CacheNode's prev/next incl. unreachable ones) after every call against the heap
+model; (2) cached_template identity pattern over histories x cache sizes, incl. differently configured Engine
+instances; (3) component renders over more inline templates than the cache holds.
+Direct oracles: OrderedDict reference LRU step by step (which key leaves at each overflow) + recency order read
+off through the public API (fresh insertions evict in LRU order); cached_template result renders like a fresh
+compile with the SAME class / engine; component output == expected text.
 """
 import collections
 import itertools
@@ -12,6 +18,8 @@ import common as C
 from common import cN, cZ, clist, copt
 
 IMPORTS = "From DJC Require Import Lib.Base LRU.Model."
+IMPORTS_H = "From DJC Require Import Lib.Base LRU.Model LRU.Heap."
+UNIVERSE = list(range(8)) + [""]     # keys the generators draw from ("" is also the sentinels' key)
 
 
 def op_term(o):
@@ -35,10 +43,79 @@ def out_term(r):
     return "RErr"
 
 
-def run_impl_lru(cap, ops):
+def enc_key(k):
+    """key of the heap-model cases: "" (the key the sentinel nodes carry) -> 0, int k -> k+1"""
+    return 0 if k == "" else k + 1
+
+
+class Snapshotter:
+    """Reads the pointer structure of a real LRUCache: CacheNode objects get the ids the heap model gives them
+    (head 0, tail 1, then 2, 3, .. in creation order; every object ever seen is kept alive here)."""
+
+    def __init__(self, c):
+        self.c = c
+        self.objs = [c.head, c.tail]
+        self.ids = {id(c.head): 0, id(c.tail): 1}
+        self.broken = None
+
+    def sid(self, node):
+        if node is None:
+            return None
+        if id(node) not in self.ids:
+            self.ids[id(node)] = len(self.objs)
+            self.objs.append(node)
+        return self.ids[id(node)]
+
+    def snap(self):
+        c = self.c
+        try:
+            for node in c.cache.values():      # a new node is indexed by the dict in the call that created it
+                self.sid(node)
+            fwd, n, steps = [], c.head.next, 0
+            while n is not None and n is not c.tail and steps <= len(self.objs) + 2:
+                fwd.append(self.sid(n))
+                n, steps = n.next, steps + 1
+            bwd, n, steps = [], c.tail.prev, 0
+            while n is not None and n is not c.head and steps <= len(self.objs) + 2:
+                bwd.append(self.sid(n))
+                n, steps = n.prev, steps + 1
+            d = sorted(((enc_key(k), self.sid(node)) for k, node in c.cache.items()))
+            return fwd, bwd, d
+        except Exception as e:  # noqa  - the object is not the structure the heap model describes
+            self.broken = "%s: %s" % (type(e).__name__, e)
+            return [], [], []
+
+    def dump(self):
+        out, i = [], 0
+        try:
+            while i < len(self.objs):          # sid() may append objects reachable only through stale pointers
+                o = self.objs[i]
+                out.append((i, enc_key(o.key), o.value, self.sid(o.prev), self.sid(o.next)))
+                i += 1
+        except Exception as e:  # noqa
+            self.broken = "%s: %s" % (type(e).__name__, e)
+        return out
+
+
+def eviction_order(c, present, cap):
+    """Recency order of `present` read off through the PUBLIC API only: insert fresh keys one at a time and record
+    which of the original keys stop being cached.  Destroys the cache contents - call it last."""
+    gone_steps, remaining = [], list(present)
+    for j in range(max(cap, 0) + len(present) + 1):
+        if not remaining:
+            break
+        c.set(("fresh", j), 0)
+        gone = [k for k in remaining if not c.has(k)]
+        gone_steps.append(gone)
+        remaining = [k for k in remaining if k not in gone]
+    return gone_steps
+
+
+def run_impl_lru(cap, ops, universe=UNIVERSE, probe=True):
     from django_components.util.cache import LRUCache
     c = LRUCache(maxsize=cap)
-    outs = []
+    sn = Snapshotter(c)
+    outs, present, snaps = [], [], []
     hit = evict = False
     for o in ops:
         try:
@@ -59,14 +136,20 @@ def run_impl_lru(cap, ops):
                 outs.append(("unit", None))
         except Exception as e:  # noqa
             outs.append(("err", type(e).__name__))
-    keys = sorted(k for k in range(8) if c.has(k))
-    return outs, keys, len(c.cache), hit and evict
+        present.append([k for k in universe if c.has(k)])     # API only
+        snaps.append(sn.snap())
+    keys = [k for k in universe if c.has(k)]
+    n = len(c.cache)
+    heap = sn.dump()
+    order = eviction_order(c, keys, cap) if (probe and cap is not None) else None
+    return {"outs": outs, "keys": keys, "n": n, "nontrivial": hit and evict, "present": present,
+            "snaps": snaps, "heap": heap, "order": order, "broken": sn.broken}
 
 
 def ref_lru(cap, ops):
-    """Independent reference (direct statement of the property): OrderedDict LRU."""
+    """Independent reference (direct statement of the property): OrderedDict, least recently used first."""
     d = collections.OrderedDict()
-    outs = []
+    outs, present = [], []
     for o in ops:
         if o[0] == "get":
             if o[1] in d:
@@ -88,12 +171,47 @@ def ref_lru(cap, ops):
         else:
             d.clear()
             outs.append(("unit", None))
-    return outs, sorted(d.keys()), len(d)
+        present.append(sorted(d.keys(), key=UNIVERSE.index))
+    lru_first = list(d.keys())
+    # what inserting fresh keys must evict: nothing while there is room, then the entries least recently used first
+    order = None
+    if cap is not None:
+        order = ([[]] * max(0, cap - len(d)) + [[k] for k in lru_first]) if lru_first else []
+    return {"outs": outs, "keys": sorted(d.keys(), key=UNIVERSE.index), "n": len(d), "present": present,
+            "order": order, "lru_first": lru_first}
+
+
+def lru_oracle(chk, cap, ops, im, ref):
+    """the property's own words on the implementation: bounded, LRU eviction, dictionary answers"""
+    rep = {"kind": "lru", "maxsize": cap, "ops": ops}
+    if (im["outs"], im["keys"], im["n"]) != (ref["outs"], ref["keys"], ref["n"]) or im["present"] != ref["present"]:
+        step = next((i for i, (a, b) in enumerate(zip(im["present"], ref["present"])) if a != b), None)
+        chk.fail("lru-api", "LRUCache differs from a bounded-LRU dictionary (results / which keys are cached after each call)",
+                 dict(rep, first_differing_call=step, impl={"outs": im["outs"], "cached_after_each_call": im["present"], "len": im["n"]},
+                      reference={"outs": ref["outs"], "cached_after_each_call": ref["present"], "len": ref["n"]}))
+    elif im["order"] is not None and im["order"] != ref["order"]:
+        chk.fail("lru-eviction-order", "after the calls, inserting fresh keys does not evict the cached keys least-recently-used first",
+                 dict(rep, evicted_by_each_fresh_insert=im["order"], expected=ref["order"]))
+    if cap is not None and any(len(p) > max(cap, 0) for p in im["present"]):
+        chk.fail("lru-size", "more keys cached than maxsize", dict(rep, cached_after_each_call=im["present"]))
+
+
+def enc_ops(ops):
+    return [(o[0], enc_key(o[1])) + tuple(o[2:]) if o[0] != "clear" else o for o in ops]
 
 
 def lru_case_term(cap, ops, outs, keys, n):
-    return "(%s, %s, %s, %s, %s)" % (copt(cap, cZ), clist([op_term(o) for o in ops]),
-                                     clist([out_term(r) for r in outs]), clist([cN(k) for k in keys]), cN(n))
+    return "(%s, %s, %s, %s, %s)" % (copt(cap, cZ), clist([op_term(o) for o in enc_ops(ops)]),
+                                     clist([out_term(r) for r in outs]), clist([cN(k) for k in sorted(enc_key(k) for k in keys)]), cN(n))
+
+
+def heap_case_term(cap, ops, im):
+    eops = enc_ops(ops)
+    snaps = ["(%s, %s, %s)" % (clist([cN(i) for i in f]), clist([cN(i) for i in b]),
+                               clist(["(%s, %s)" % (cN(k), cN(i)) for k, i in d])) for f, b, d in im["snaps"]]
+    objs = ["(%s, (%s, %s, %s, %s))" % (cN(i), cN(k), copt(v, cN), copt(p, cN), copt(n, cN)) for i, k, v, p, n in im["heap"]]
+    return "(%s, %s, %s, %s, %s)" % (copt(cap, cZ), clist([op_term(o) for o in eops]),
+                                     clist([out_term(r) for r in im["outs"]]), clist(snaps), clist(objs))
 
 
 def gen_lru_sequences(chk, maxlen, nkeys, caps, nrandom, randlen):
@@ -109,22 +227,46 @@ def gen_lru_sequences(chk, maxlen, nkeys, caps, nrandom, randlen):
     for _ in range(nrandom):
         cap = rng.choice([None, 0, 1, 2, 3, 4, 5, -1])
         nk = rng.choice([3, 4, 6, 8])
+        empty_key = rng.random() < 0.25           # "" - the key the sentinel nodes carry - used as an ordinary key
         L = rng.randint(6, randlen)
         ops = []
         for i in range(L):
             kind = rng.choices([a for a, _ in alphabet_w], [w for _, w in alphabet_w])[0]
+            key = "" if (empty_key and rng.random() < 0.2) else rng.randrange(nk)
             if kind == "clear":
                 ops.append(("clear",))
             elif kind == "set":
-                ops.append(("set", rng.randrange(nk), 100 + i))
+                ops.append(("set", key, 100 + i))
             else:
-                ops.append((kind, rng.randrange(nk)))
+                ops.append((kind, key))
         yield cap, ops, "random"
 
 
 # ---------------------------------------------------------------------------------------------
+def make_engines():
+    """Two differently configured instances of the stock Engine class + the configured default engine object."""
+    from django.template import Engine, engines
+    return {"E1": Engine(string_if_invalid="<E1>"), "E2": Engine(string_if_invalid="<E2>"),
+            "DEF": engines["django"].engine}
+
+
+def engine_instance_class(hist, keys, i):
+    """Input predicate of the finding 'cache key ignores the engine INSTANCE': call i passes an explicit engine and an earlier
+    call since the last clear compiled the same source + template class with a DIFFERENT explicit engine object of the same class."""
+    src, cls, eng = keys[hist[i][1]]
+    if eng is None:
+        return False
+    for j in range(i - 1, -1, -1):
+        if hist[j][0] == "clear":
+            return False
+        s2, c2, e2 = keys[hist[j][1]]
+        if s2 == src and c2 is cls and e2 is not None and e2 is not eng and type(e2) is type(eng):
+            return True
+    return False
+
+
 def run_impl_ct(cap, hist, keys):
-    """hist: list of ('c', key_index) | ('clear',).  Returns identity pattern + oracle failures."""
+    """hist: list of ('c', key_index) | ('clear',).  Returns identity pattern + oracle failures (call index, what)."""
     import django_components.cache as dc_cache
     from django.template import Context, Template
     from django_components.template import cached_template
@@ -151,17 +293,26 @@ def run_impl_ct(cap, hist, keys):
             if id(t) not in first_seen:
                 first_seen[id(t)] = i
             ids.append(first_seen[id(t)])
-            # direct oracle: transparent - same source/class/engine, renders like a fresh compile
+            # direct oracle: transparent - same source/class/engine, renders like a fresh compile with THAT engine
             fresh = (cls or Template)(src, engine=eng)
             ctx = {"x": "<v%d>" % i}
-            if t.source != src or type(t) is not (cls or Template) or (eng is not None and t.engine is not eng) \
-                    or t.render(Context(ctx)) != fresh.render(Context(ctx)):
-                fails.append(i)
+            got, exp = t.render(Context(ctx)), fresh.render(Context(ctx))
+            if t.source != src or type(t) is not (cls or Template) or t.engine is not fresh.engine or got != exp:
+                fails.append((i, {"call": i, "rendered": got, "fresh_compile_renders": exp,
+                                  "same_engine_object": t.engine is fresh.engine, "same_class": type(t) is (cls or Template)}))
         n = len(dc_cache.get_template_cache().cache)
         if cap is not None and n > max(0, cap):
-            fails.append(-1)
+            fails.append((-1, {"cache_len": n, "configured": cap}))
     dc_cache.template_cache = None
     return ids, fails
+
+
+def ct_report(chk, cap, hist, keys, key_names, fails):
+    for i, info in fails:
+        trig = "cached-template-engine-instance" if (i >= 0 and engine_instance_class(hist, keys, i)) else "cached-template-transparent"
+        chk.fail(trig, "cached_template returned a template that is not what compiling afresh gives (other source / class / engine, or "
+                       "different rendering) / cache over capacity",
+                 {"kind": "ct", "size": cap, "history": hist, "keys": key_names, "failing_call": info})
 
 
 def ct_case_term(cap, hist, ids):
@@ -169,17 +320,37 @@ def ct_case_term(cap, hist, ids):
     return "(%s, %s, %s)" % (copt(cap, cZ), clist(ops), clist([copt(i, cN) for i in ids]))
 
 
+def make_ct_keys():
+    from django.template import Template
+
+    class T2(Template):
+        pass
+    E = make_engines()
+    srcs = ["A{{ x }}", "B{{ x }}", "C{% if x %}{{ x }}{% endif %}", "D{{ x }}|{{ missing }}"]
+    keys = [(s, None, None) for s in srcs[:3]] + [(srcs[0], T2, None), (srcs[0], None, E["DEF"]), (srcs[1], T2, E["DEF"])]
+    names = ["A", "B", "C", "A/T2", "A/default-engine-object", "B/T2/default-engine-object"]
+    # the engine family: one source under the implicit default engine, the default engine object, and two other instances
+    ekeys = [(srcs[3], None, None), (srcs[3], None, E["E1"]), (srcs[3], None, E["E2"]), (srcs[3], None, E["DEF"]),
+             (srcs[3], T2, E["E1"]), (srcs[0], None, E["E2"])]
+    enames = ["D", "D/E1", "D/E2", "D/default-engine-object", "D/T2/E1", "A/E2"]
+    return keys, names, ekeys, enames
+
+
 def component_render_oracle(chk, sizes, nseq):
-    """Renders of components with inline templates under several cache sizes == expected output."""
+    """Renders of components with inline templates under several cache sizes == expected output; in between, the same template
+    strings are compiled through cached_template() for OTHER engines (must not leak into the components, nor the other way round)."""
+    import re
     import django_components.cache as dc_cache
     from django.template import Context, Template
     from django_components import Component, registry
+    from django_components.template import cached_template
     import djsetup
     rng = chk.rng
+    E = make_engines()
     comps = []
     for i in range(6):
         cls = type("C18Comp%d" % i, (Component,), {
-            "template": "<i>T%d:{{ x }}{%% if y %%}+{{ y }}{%% endif %%}</i>" % i,
+            "template": "<i>T%d:{{ x }}{%% if y %%}+{{ y }}{%% endif %%}{{ c18_missing }}</i>" % i,
             "get_context_data": lambda self, x=None, y=None: {"x": x, "y": y},
             "__module__": "verif_c18_%d" % i})
         registry.register("c18comp%d" % i, cls)
@@ -187,30 +358,57 @@ def component_render_oracle(chk, sizes, nseq):
     try:
         for _ in range(nseq):
             seq = [(rng.randrange(6), rng.randrange(100), rng.choice([None, 7])) for _ in range(rng.randint(3, 12))]
-            outs = {}
+            # positions at which the template string of component ci is compiled for engine E1/E2 first
+            other = {j: rng.choice(["E1", "E2"]) for j in range(len(seq)) if rng.random() < 0.3}
+            via_tag = [rng.random() < 0.5 for _ in seq]
             for size in sizes:
                 dc_cache.template_cache = None
                 with djsetup.components_settings(template_cache_size=size):
-                    out = []
-                    for (ci, x, y) in seq:
-                        if rng.random() < 0.5:
+                    out, eng_fail = [], []
+                    for j, (ci, x, y) in enumerate(seq):
+                        if j in other:
+                            t = cached_template(comps[ci].template, engine=E[other[j]])
+                            got = t.render(Context({"x": x, "y": y}))
+                            exp = Template(comps[ci].template, engine=E[other[j]]).render(Context({"x": x, "y": y}))
+                            if got != exp:
+                                eng_fail.append({"position": j, "engine": other[j], "rendered": got, "fresh_compile_renders": exp})
+                        if not via_tag[j]:
                             out.append(comps[ci].render(kwargs={"x": x, "y": y}, render_dependencies=False))
                         else:
                             t = Template("{%% component 'c18comp%d' x=x y=y / %%}" % ci)
                             out.append(t.render(Context({"x": x, "y": y})))
                     n = len(dc_cache.get_template_cache().cache)
-                outs[size] = out
                 exp = ["T%d:%s%s" % (ci, x, "+%s" % y if y else "") for (ci, x, y) in seq]
-                import re
                 got = [re.sub(r"<!--.*?-->|<i[^>]*>|</i>", "", o) for o in out]
-                chk.count(("render", tuple(seq), size), len(set(c for c, _, _ in seq)) > max(size, 0), kind="render")
-                if got != exp or n > max(size, 0):
+                chk.count(("render", tuple(seq), size, tuple(sorted(other.items()))), len(set(c for c, _, _ in seq)) > max(size, 0), kind="render")
+                if got != exp or n > max(size, 0) or eng_fail:
                     chk.fail("render-under-cache", "component render under template_cache_size=%r differs from fresh compile" % size,
-                             {"kind": "render", "seq": seq, "size": size, "got": got, "expected": exp, "cache_len": n})
+                             {"kind": "render", "seq": seq, "size": size, "got": got, "expected": exp, "cache_len": n,
+                              "same_template_string_compiled_for_other_engine_before_position": other, "other_engine_failures": eng_fail})
     finally:
         for i in range(6):
             registry.unregister("c18comp%d" % i)
         dc_cache.template_cache = None
+
+
+def run_corpus(chk):
+    """Minimised witnesses (incl. defects already fixed in /repo) - direct oracles only."""
+    import glob
+    import json
+    import os
+    for path in sorted(glob.glob(os.path.join(C.VERIF, "corpus", "C18", "*.json"))):
+        w = json.load(open(path))
+        if w.get("kind") == "ct-engine":
+            E = make_engines()
+            keys = [(w["source"], None, None if c[0] == "default" else E[c[0]]) for c in w["calls"]]
+            hist = [("c", i) for i in range(len(keys))]
+            ids, fails = run_impl_ct(w["size"], hist, keys)
+            chk.count(("corpus", os.path.basename(path)), True, kind="corpus")
+            ct_report(chk, w["size"], hist, keys, [c[0] for c in w["calls"]], fails)
+        elif w.get("kind") == "lru":
+            ops = [tuple(o) for o in w["ops"]]
+            chk.count(("corpus", os.path.basename(path)), True, kind="corpus")
+            lru_oracle(chk, w["maxsize"], ops, run_impl_lru(w["maxsize"], ops), ref_lru(w["maxsize"], ops))
 
 
 def run(tier, seed):
@@ -220,30 +418,46 @@ def run(tier, seed):
     chk.prove()
     thorough = tier == "thorough"
     caps = [None, 0, 1, 2, 3, -1]
-    # ---- 1. LRUCache API ----
-    terms, cases = [], []
+    # ---- 0. corpus (witnesses of fixed defects) through the direct oracles ----
+    run_corpus(chk)
+    # ---- 1. LRUCache API: direct oracle, list-level model, pointer-level model ----
+    terms, hterms, cases = [], [], []
     for cap, ops, kind in gen_lru_sequences(chk, 5 if thorough else 4, 3, caps, 20000 if thorough else 2000, 60 if thorough else 40):
-        outs, keys, n, nontriv = run_impl_lru(cap, ops)
-        chk.count((cap, tuple(ops)), nontriv, kind=kind,
-                  sample={"maxsize": cap, "ops": ops, "outs": outs} if (nontriv and kind == "random") else None)
-        ref = ref_lru(cap, ops)
-        if (outs, keys, n) != ref:
-            chk.fail("lru-api", "LRUCache differs from a bounded-LRU dictionary",
-                     {"kind": "lru", "maxsize": cap, "ops": ops, "impl": [outs, keys, n], "reference": list(ref)})
-        terms.append(lru_case_term(cap, ops, outs, keys, n))
-        cases.append((cap, ops))
+        im = run_impl_lru(cap, ops)
+        chk.count((cap, tuple(ops)), im["nontrivial"], kind=kind,
+                  sample={"maxsize": cap, "ops": ops, "outs": im["outs"], "node_ids_head_to_tail_after_each_call": [f for f, _, _ in im["snaps"]]}
+                  if (im["nontrivial"] and kind == "random") else None)
+        lru_oracle(chk, cap, ops, im, ref_lru(cap, ops))
+        terms.append(lru_case_term(cap, ops, im["outs"], im["keys"], im["n"]))
+        hterms.append(heap_case_term(cap, ops, im))
+        cases.append((cap, ops, im))
     bad = C.coq_eval_cases("C18", "lru", IMPORTS, "lru_case", "check_lru", terms, shard=3000)
     for i in bad[:20]:
         chk.disagree("LRU model != LRUCache", {"kind": "lru", "maxsize": cases[i][0], "ops": cases[i][1]})
+    bad = C.coq_eval_cases("C18", "heap", IMPORTS_H, "heap_case", "check_heap", hterms, shard=2500)
+    for i in bad[:20]:
+        cap, ops, im = cases[i]
+        chk.disagree("pointer-level model (LRU/Heap.v) != the real LRUCache object: node order forwards/backwards, dict -> node, "
+                     "or some CacheNode's key/value/prev/next differ after a call",
+                     {"kind": "heap", "maxsize": cap, "ops": ops, "impl_snapshots_fwd_bwd_dict": im["snaps"], "impl_objects": im["heap"],
+                      "impl_structure_unreadable": im["broken"]})
+    chk.extra["heap_cases"] = len(hterms)
+    del terms, hterms, cases
     # ---- 2. cached_template ----
-    from django.template import Template, engines
-
-    class T2(Template):
-        pass
-    eng = engines["django"].engine
-    srcs = ["A{{ x }}", "B{{ x }}", "C{% if x %}{{ x }}{% endif %}"]
-    keys = [(s, None, None) for s in srcs] + [(srcs[0], T2, None), (srcs[0], None, eng), (srcs[1], T2, eng)]
+    keys, names, ekeys, enames = make_ct_keys()
+    sizes = [None, 0, 1, 2, 3]
     terms, cases = [], []
+
+    def ct_run(cap, hist, kk, nn, kind):
+        ids, fails = run_impl_ct(cap, hist, kk)
+        nontriv = len(set(i for i in ids if i is not None)) < len([i for i in ids if i is not None]) and \
+            len(set(h[1] for h in hist if h[0] == "c")) > (cap if cap is not None else 99)
+        chk.count(("ct", kind, cap, tuple(hist)), nontriv, kind=kind,
+                  sample={"template_cache_size": cap, "history": hist, "keys": nn, "object_identity": ids} if nontriv and len(hist) > 8 else None)
+        ct_report(chk, cap, hist, kk, nn, fails)
+        terms.append(ct_case_term(cap, hist, ids))
+        cases.append((cap, hist, ids, nn))
+
     hists = []
     alpha = [("c", k) for k in range(4)] + [("clear",)]
     for L in range(0, (6 if thorough else 5) + 1):
@@ -252,41 +466,52 @@ def run(tier, seed):
     for _ in range(3000 if thorough else 600):
         hists.append([("clear",) if chk.rng.random() < 0.08 else ("c", chk.rng.randrange(len(keys)))
                       for _ in range(chk.rng.randint(5, 30))])
-    sizes = [None, 0, 1, 2, 3]
     for hi, hist in enumerate(hists):
         for cap in (sizes if len(hist) <= 4 or hi % 3 == 0 else [sizes[hi % len(sizes)]]):
-            ids, fails = run_impl_ct(cap, hist, keys)
-            nontriv = len(set(i for i in ids if i is not None)) < len([i for i in ids if i is not None]) and \
-                len(set(h[1] for h in hist if h[0] == "c")) > (cap if cap is not None else 99)
-            chk.count(("ct", cap, tuple(hist)), nontriv, kind="cached_template",
-                      sample={"template_cache_size": cap, "history": hist, "object_identity": ids} if nontriv and len(hist) > 8 else None)
-            if fails:
-                chk.fail("cached-template-transparent", "cached_template returned a template that is not the requested one / cache over capacity",
-                         {"kind": "ct", "size": cap, "history": hist, "failing_calls": fails})
-            terms.append(ct_case_term(cap, hist, ids))
-            cases.append((cap, hist, ids))
+            ct_run(cap, hist, keys, names, "cached_template")
+    # engine family: same source under the implicit default engine / the default engine object / two other Engine instances,
+    # every order (exhaustive), then random histories over all six keys
+    ehists = []
+    for L in range(0, (5 if thorough else 4) + 1):
+        for seq in itertools.product(alpha, repeat=L):
+            ehists.append(list(seq))
+    for _ in range(1500 if thorough else 300):
+        ehists.append([("clear",) if chk.rng.random() < 0.08 else ("c", chk.rng.randrange(len(ekeys)))
+                       for _ in range(chk.rng.randint(4, 20))])
+    for hi, hist in enumerate(ehists):
+        for cap in (sizes if len(hist) <= 3 or hi % 3 == 0 else [sizes[hi % len(sizes)]]):
+            ct_run(cap, hist, ekeys, enames, "cached_template_engines")
     bad = C.coq_eval_cases("C18", "ct", IMPORTS, "ct_case", "check_ct", terms, shard=3000)
     for i in bad[:20]:
-        chk.disagree("cached_template model != implementation (object identity pattern)",
-                     {"kind": "ct", "size": cases[i][0], "history": cases[i][1], "impl_identity": cases[i][2]})
+        chk.disagree("cached_template model != implementation (object identity pattern; the model's key is injective in "
+                     "(template class, source, engine instance))",
+                     {"kind": "ct", "size": cases[i][0], "history": cases[i][1], "impl_identity": cases[i][2], "keys": cases[i][3]})
     # ---- 3. component renders ----
     component_render_oracle(chk, [0, 1, 2, 128], 300 if thorough else 60)
     chk.assumptions = [
         "Template(...) is deterministic in (class, source, engine) apart from object identity (Django)",
-        "keys are compared with Python == / hash on (str, str, Optional[str]) tuples; the model uses injective N codes",
+        "keys are compared with Python == / hash on the key tuples; the model uses injective N codes (a distinct code per "
+        "(template class, source, engine instance))",
+        "user keys of LRUCache are hashable values with a lawful ==; the sentinels' key \"\" may also be a user key (it is, in some runs)",
         "single-threaded use (concurrency belongs to C07)",
     ]
     return chk.finish(
         rule="LRU: every get/has/set/clear sequence up to length %d over 3 keys x maxsize in {None,0,1,2,3,-1} (exhaustive) + seeded random "
-             "sequences up to length %d over up to 8 keys; cached_template: every compile/clear history up to length %d over 4 keys "
-             "(+random over 6 keys incl. same source under another Template class / engine) x sizes {None,0,1,2,3}; component renders over 6 inline "
-             "templates x sizes {0,1,2,128}. Non-trivial = at least one hit and one eviction (LRU), identity reuse with more keys than "
-             "capacity (cached_template), more distinct templates than the cache holds (render). Distinct = distinct (config, sequence)."
-             % (5 if thorough else 4, 60 if thorough else 40, 6 if thorough else 5),
-        explanation="10 theorems of Props/C18.v re-checked by coqc; model evaluated by vm_compute inside Coq on every generated case and "
-                    "compared with the observed LRUCache / cached_template behaviour; independent OrderedDict reference and fresh-compile "
-                    "render comparison act as direct property oracle.",
-        extra_trusted=["modelled, not verified: the doubly-linked-list representation inside LRUCache (the model keeps the entry list it represents); Django Template compilation"])
+             "sequences up to length %d over up to 8 keys (+ the key \"\"), each run against the list-level model AND - pointer structure after "
+             "every call, all CacheNode objects at the end - against the heap model; cached_template: every compile/clear history up to length %d "
+             "over 4 keys (+random over 6 keys incl. same source under another Template class / engine) and every history up to length %d over "
+             "{implicit default engine, default engine object, Engine instance E1, Engine instance E2} x one source (+random) x sizes "
+             "{None,0,1,2,3}; component renders over 6 inline templates x sizes {0,1,2,128} with the same template strings compiled for other "
+             "engines in between. Non-trivial = at least one hit and one eviction (LRU), identity reuse with more keys than capacity "
+             "(cached_template), more distinct templates than the cache holds (render). Distinct = distinct (config, sequence)."
+             % (5 if thorough else 4, 60 if thorough else 40, 6 if thorough else 5, 5 if thorough else 4),
+        explanation="19 theorems of Props/C18.v re-checked by coqc (10 about the list-level model, 9 about the pointer-level model incl. the "
+                    "refinement `lru_refines`); both models evaluated by vm_compute inside Coq on every generated case and compared with the "
+                    "observed LRUCache / cached_template behaviour and with the real object's pointer structure; independent OrderedDict "
+                    "reference (step by step), recency order read through the public API, and fresh-compile render comparison act as direct "
+                    "property oracles.",
+        extra_trusted=["the reader of the real object's pointer structure (harness/c18.py Snapshotter: numbers CacheNode objects in creation order)",
+                       "modelled, not verified: Django Template compilation; CPython object/dict semantics behind the heap model's ids and association lists"])
 
 
 def replay(path):
@@ -295,9 +520,25 @@ def replay(path):
     djsetup.setup()
     r = json.load(open(path))
     case = r.get("case", {})
-    print(json.dumps(r, indent=1)[:3000])
-    if case.get("kind") == "lru":
+    print(json.dumps(r, indent=1)[:4000])
+    kind = case.get("kind")
+    if kind in ("lru", "heap"):
         ops = [tuple(o) for o in case["ops"]]
-        print("impl:", run_impl_lru(case["maxsize"], ops)[:3])
-        print("ref: ", ref_lru(case["maxsize"], ops))
+        im, ref = run_impl_lru(case["maxsize"], ops), ref_lru(case["maxsize"], ops)
+        print("ops:", ops, "maxsize:", case["maxsize"])
+        print("impl: outs", im["outs"], "cached after each call", im["present"], "evicted by fresh inserts", im["order"])
+        print("ref:  outs", ref["outs"], "cached after each call", ref["present"], "evicted by fresh inserts", ref["order"])
+        print("impl pointer structure after each call (fwd ids, bwd ids, dict key->id):", im["snaps"])
+        print("impl objects (id, key+1, value, prev, next):", im["heap"])
+        bad = C.coq_eval_cases("C18", "replay", IMPORTS_H, "heap_case", "check_heap", [heap_case_term(case["maxsize"], ops, im)])
+        print("heap model agrees with the real object:", not bad)
+        return 1 if (bad or (im["outs"], im["present"], im["order"]) != (ref["outs"], ref["present"], ref["order"])) else 0
+    if kind == "ct":
+        keys, names, ekeys, enames = make_ct_keys()
+        kk = ekeys if case.get("keys") == enames else keys
+        hist = [tuple(h) for h in case["history"]]
+        ids, fails = run_impl_ct(case["size"], hist, kk)
+        print("identity pattern:", ids)
+        print("oracle failures:", fails)
+        return 1 if fails else 0
     return 0
